@@ -2,8 +2,12 @@
 and monitor: harness/exec_props.py (monitor family 3 of Exec/ExecTrace.v)."""
 from harness import exec_props as X
 
-BIAS = {}
-TINY = None
+BIAS = {"throttled": True, "profiles": ["timeout", "hw", "mixed", "failing", "happy"], "sub_ok_p": 0.8}
+TINY = {"cfgs": [{"throttle": 1, "attempts": 1, "dry": False}, {"throttle": 2, "attempts": 2, "dry": False},
+                 {"throttle": 0, "attempts": 1, "dry": False}],
+        "depth_quick": 3, "depth_thorough": 4, "graphs_quick": 3,
+        "enum": {"subs": True, "kinds": ["absent", "RUNNING", "FINISHED", "TIMEDOUT", "HWFAILURE", "FAILED"]},
+        "limit_quick": 1500, "limit_thorough": 15000}
 
 
 def run(ck):
